@@ -69,7 +69,11 @@ impl<T> Object<T> {
     #[must_use]
     pub fn take(mut this: Self) -> T {
         if let Some(pool) = this.pool.upgrade() {
+            #[cfg(deadpool_verif)]
+            crate::verif::point("utake.size_dec");
             let _ = pool.size.fetch_sub(1, Ordering::Relaxed);
+            #[cfg(deadpool_verif)]
+            crate::verif::point("utake.add_permits");
             pool.size_semaphore.add_permits(1);
         }
         this.obj.take().unwrap()
@@ -84,8 +88,14 @@ impl<T> Drop for Object<T> {
                     let mut queue = pool.queue.lock().unwrap();
                     queue.push(obj);
                 }
+                #[cfg(deadpool_verif)]
+                crate::verif::point("udrop.avail_inc");
                 let _ = pool.available.fetch_add(1, Ordering::Relaxed);
+                #[cfg(deadpool_verif)]
+                crate::verif::point("udrop.add_permits");
                 pool.semaphore.add_permits(1);
+                #[cfg(deadpool_verif)]
+                crate::verif::point("udrop.clean_up");
                 pool.clean_up();
             }
         }
@@ -193,10 +203,14 @@ impl<T> Pool<T> {
             TryAcquireError::NoPermits => PoolError::Timeout,
             TryAcquireError::Closed => PoolError::Closed,
         })?;
+        #[cfg(deadpool_verif)]
+        crate::verif::point("uget.pop");
         let obj = {
             let mut queue = inner.queue.lock().unwrap();
             queue.pop().unwrap()
         };
+        #[cfg(deadpool_verif)]
+        crate::verif::point("uget.popped");
         permit.forget();
         let _ = inner.available.fetch_sub(1, Ordering::Relaxed);
         Ok(Object {
@@ -213,6 +227,8 @@ impl<T> Pool<T> {
     /// See [`PoolError`] for details.
     pub async fn timeout_get(&self, timeout: Option<Duration>) -> Result<Object<T>, PoolError> {
         let inner = self.inner.as_ref();
+        #[cfg(deadpool_verif)]
+        crate::verif::point("uget.acquire");
         let permit = match (timeout, inner.config.runtime) {
             (None, _) => inner
                 .semaphore
@@ -232,10 +248,14 @@ impl<T> Pool<T> {
                 .map_err(|_| PoolError::Closed),
             (Some(_), None) => Err(PoolError::NoRuntimeSpecified),
         }?;
+        #[cfg(deadpool_verif)]
+        crate::verif::point("uget.pop");
         let obj = {
             let mut queue = inner.queue.lock().unwrap();
             queue.pop().unwrap()
         };
+        #[cfg(deadpool_verif)]
+        crate::verif::point("uget.popped");
         permit.forget();
         let _ = inner.available.fetch_sub(1, Ordering::Relaxed);
         Ok(Object {
@@ -291,12 +311,20 @@ impl<T> Pool<T> {
     /// `max_size`. In the methods `add` and `try_add` this is ensured by using
     /// the `size_semaphore`.
     fn _add(&self, object: T) {
+        #[cfg(deadpool_verif)]
+        crate::verif::point("uadd.size_inc");
         let _ = self.inner.size.fetch_add(1, Ordering::Relaxed);
+        #[cfg(deadpool_verif)]
+        crate::verif::point("uadd.push");
         {
             let mut queue = self.inner.queue.lock().unwrap();
             queue.push(object);
         }
+        #[cfg(deadpool_verif)]
+        crate::verif::point("uadd.avail_inc");
         let _ = self.inner.available.fetch_add(1, Ordering::Relaxed);
+        #[cfg(deadpool_verif)]
+        crate::verif::point("uadd.add_permits");
         self.inner.semaphore.add_permits(1);
     }
 
@@ -322,7 +350,11 @@ impl<T> Pool<T> {
     /// [`PoolError::Closed`] immediately.
     pub fn close(&self) {
         self.inner.semaphore.close();
+        #[cfg(deadpool_verif)]
+        crate::verif::point("uclose.size_semaphore");
         self.inner.size_semaphore.close();
+        #[cfg(deadpool_verif)]
+        crate::verif::point("uclose.clear");
         self.inner.clear();
     }
 
@@ -336,6 +368,8 @@ impl<T> Pool<T> {
     pub fn status(&self) -> Status {
         let max_size = self.inner.config.max_size;
         let size = self.inner.size.load(Ordering::Relaxed);
+        #[cfg(deadpool_verif)]
+        crate::verif::point("ustatus.available");
         let available = self.inner.available.load(Ordering::Relaxed);
         Status {
             max_size,
@@ -347,6 +381,35 @@ impl<T> Pool<T> {
                 0
             },
         }
+    }
+
+    /// Snapshot of the internal counters (verification builds only).
+    #[cfg(deadpool_verif)]
+    pub fn verif_snapshot(&self) -> crate::verif::UnmanagedSnapshot {
+        let queue_len = match self.inner.queue.lock() {
+            Ok(q) => q.len(),
+            Err(e) => e.into_inner().len(),
+        };
+        crate::verif::UnmanagedSnapshot {
+            permits: self.inner.semaphore.available_permits(),
+            size_permits: self.inner.size_semaphore.available_permits(),
+            closed: self.inner.semaphore.is_closed(),
+            size_closed: self.inner.size_semaphore.is_closed(),
+            size: self.inner.size.load(Ordering::Relaxed),
+            available: self.inner.available.load(Ordering::Relaxed),
+            queue_len,
+            max_size: self.inner.config.max_size,
+        }
+    }
+
+    /// Visits the queued objects, oldest first (verification builds only).
+    #[cfg(deadpool_verif)]
+    pub fn verif_visit_queue(&self, mut f: impl FnMut(&T)) {
+        let queue = match self.inner.queue.lock() {
+            Ok(q) => q,
+            Err(e) => e.into_inner(),
+        };
+        queue.iter().for_each(&mut f);
     }
 }
 
@@ -377,6 +440,8 @@ impl<T> PoolInner<T> {
     /// don't contain any [`Object`]s.
     fn clean_up(&self) {
         if self.is_closed() {
+            #[cfg(deadpool_verif)]
+            crate::verif::point("uclean.clear");
             self.clear();
         }
     }
